@@ -63,7 +63,7 @@ PROPS.update({
     },
     "C06": {
         "title": "Linear-combination openings",
-        "rule": GEN + "LC sets: 1..4 combinations of 1..6 terms (one in twelve with 20..90 terms), combination labels that coincide with the label of their own single polynomial or of an unrelated polynomial, coefficients in {0,1,-1,random}, repeated labels, LCTerm::One terms, 1..3 point labels some sharing a point value, several LCs per point. Oracles: honest open_combinations/check_combinations accepts the true values (recomputed from the polynomials); a changed claimed value, two claimed values changed by (+d, -d) or exchanged, verifier-side coefficient (on a non-vanishing evaluation), constant, or transmitted evaluation (plain, and shifted with all LC claims recomputed consistently) is not accepted; a combination mixing a degree-bounded polynomial with other terms is refused by open_combinations." + DIST,
+        "rule": GEN + "LC sets: 1..4 combinations of 1..6 terms (one in twelve with 20..90 terms), combination labels that coincide with the label of their own single polynomial or of an unrelated polynomial, coefficients in {0,1,-1,random, short scalars of every bit length up to 128}, repeated labels, LCTerm::One terms, 1..3 point labels some sharing a point value, several LCs per point. Oracles: honest open_combinations/check_combinations accepts the true values (recomputed from the polynomials); a changed claimed value, two claimed values changed by (+d, -d) or exchanged, verifier-side coefficient (on a non-vanishing evaluation), constant, or transmitted evaluation (plain, and shifted with all LC claims recomputed consistently) is not accepted; a combination mixing a degree-bounded polynomial with other terms is refused by open_combinations." + DIST,
         "required_classes": ["honest-lc-accepted", "lc-value-perturbed", "lc-coefficient-perturbed", "lc-constant-perturbed", "degree-bound-mix-refused", "evals-perturbed", "lc-values-cancelling-pair"],
         "technique": "runtime monitoring: generated LC workloads, accept-oracle + single-fault reject-oracle with truth recomputation",
         "level_text": "Exploration of LC shapes the suite never builds (constants, zero/negative coefficients, repeated labels, shared point values) through both the Marlin-style overrides and the trait default, with fault injection on every verifier-visible LC component.",
@@ -72,8 +72,8 @@ PROPS.update({
     },
     "C08": {
         "title": "Commitments are the key-defined linear map",
-        "rule": "Per scheme, seeded polynomials p, q of all shapes, scalars a, b in {0,1,-1,random}, with/without degree bound and hiding: commitment == naive term-by-term scalar-multiplication sum over the PUBLIC PARAMETERS (plain window 0.., shifted window (max-d).., PST13 by term lookup, multilinear by hypercube index, Hyrax per row in column-major layout minus r_i*h from the mirrored state, streaming through the H2 hook) plus the blinding image computed from the returned state; a*C(p)+b*C(q) == image(a*p+b*q) + image of the library-combined randomness (and == library commit of the combination when unblinded); commit(0) == identity; PST13 term-order independence; Ligero/Brakedown: metadata == public compute_dimensions and, for Ligero, == the documented shape computed in the harness (n = power of two at or above sqrt(ceil(2 len / t)), m = ceil(len / n)) with lengths at 2 len = t * 4^j and one to either side over-represented, root == Merkle root recomputed in the harness over Blake2s column hashes of the row-encoded matrix (Ligero: rows encoded by the harness itself - Horner evaluation at the powers of the primitive root of the smallest power-of-two domain with at least n_cols * rho_inv points - and compared with the library encoding; Brakedown: library `encode`), equal polynomials equal roots, different polynomials different roots." + DIST,
-        "required_classes": ["naive-msm-plain", "naive-msm-shifted", "additivity", "zero-is-identity", "merkle-root-recomputed", "matrix-layout", "reed-solomon-rows", "documented-matrix-shape"],
+        "rule": "Per scheme, seeded polynomials p, q of all shapes, scalars a, b in {0,1,-1,random}, with/without degree bound and hiding: commitment == naive term-by-term scalar-multiplication sum over the PUBLIC PARAMETERS (plain window 0.., shifted window (max-d).., PST13 by term lookup, multilinear by hypercube index, Hyrax per row in column-major layout minus r_i*h from the mirrored state, streaming through the H2 hook) plus the blinding image computed from the returned state; a*C(p)+b*C(q) == image(a*p+b*q) + image of the library-combined randomness (and == library commit of the combination when unblinded); commit(0) == identity; PST13 term-order independence; Ligero/Brakedown: metadata == public compute_dimensions and, for Ligero, == the documented shape computed in the harness (n = power of two at or above sqrt(ceil(2 len / t)), m = ceil(len / n)) with lengths at 2 len = t * 4^j and one to either side over-represented, root == Merkle root recomputed in the harness over Blake2s column hashes of the row-encoded matrix (Brakedown: rows re-encoded in the harness from the key's sparse matrices and dimensions read through a mirror struct, up to three recursion levels; Ligero: rows encoded by the harness itself - Horner evaluation at the powers of the primitive root of the smallest power-of-two domain with at least n_cols * rho_inv points - and compared with the library encoding; Brakedown: library `encode`), equal polynomials equal roots, different polynomials different roots." + DIST,
+        "required_classes": ["naive-msm-plain", "naive-msm-shifted", "additivity", "zero-is-identity", "merkle-root-recomputed", "matrix-layout", "reed-solomon-rows", "documented-matrix-shape", "brakedown-rows-follow-the-key-matrices"],
         "technique": "runtime monitoring: reference-model oracle (naive MSM / independent Merkle recomputation) on commit outputs",
         "level_text": "Every commitment produced is compared with an independent recomputation from public key elements; the oracle shares no code with the library's MSM, window arithmetic or Merkle tree.",
         "design_ref": "5 (C08)",
@@ -114,7 +114,7 @@ PROPS.update({
     },
     "C12": {
         "title": "Serialization",
-        "rule": GEN + "Every artefact produced along the transcript (universal parameters, committer key, verifier key, each commitment, each commitment state, batch proof, combination proof, labelled polynomial; KZG10 powers/keys/proofs/randomness; multilinear-PST keys/commitment/proof) is serialized compressed and uncompressed: serialized_size == bytes written; deserialization with and without validation consumes all bytes and re-serializes identically; proper prefixes (all for <= 600 bytes, 48 sampled cut points otherwise) fail. Decisions of batch_check, check and check_combinations on an honest and on a tampered claim are equal for original and deserialized (vk, commitments, proofs); deserialized parameters trim to byte-identical keys that verify; deserialized committer key and states produce accepted proofs; combination proofs additionally with every shape of the optional evaluation list (None, empty, 1, 3 entries); one case round-trips KZG10 universal parameters with more than 2^16 powers (the largest size explored)." + DIST,
+        "rule": GEN + "Every artefact produced along the transcript (universal parameters, committer key, verifier key, each commitment, each commitment state, batch proof, combination proof, labelled polynomial; KZG10 powers/keys/proofs/randomness; multilinear-PST keys/commitment/proof) is serialized compressed and uncompressed: serialized_size == bytes written; deserialization with and without validation consumes all bytes and re-serializes identically; proper prefixes (all for <= 600 bytes, 48 sampled cut points otherwise) fail. Decisions of batch_check, check and check_combinations on an honest and on a tampered claim are equal for original and deserialized (vk, commitments, proofs); deserialized parameters trim to byte-identical keys that verify; deserialized committer key and states produce accepted proofs; combination proofs additionally with every shape of the optional evaluation list (None, empty, 1, 3 entries); one case round-trips KZG10 universal parameters with more than 2^16 powers (the largest size explored), two cases PST13 keys with 350 / 700 variables (verifier keys beyond 64 KiB)." + DIST,
         "required_classes": ["roundtrip[universal-params]", "roundtrip[committer-key]", "roundtrip[verifier-key]", "roundtrip[commitment]", "roundtrip[commitment-state]", "roundtrip[batch-proof]", "decision-preserved[batch_check]", "decision-preserved[check]", "trim-of-deserialized-params", "batch-lc-proof"],
         "technique": "runtime monitoring: round-trip laws + differential verification decisions between original and deserialized artefacts",
         "level_text": "Round-trip and size laws on every artefact of every generated transcript plus behavioural equivalence of the reloaded values in all three verification entry points (which is what exposes wrongly rebuilt prepared elements).",
@@ -168,7 +168,7 @@ PROPS.update({
 PROPS.update({
     "C17": {
         "title": "Out-of-domain requests are refused",
-        "rule": GEN + "Every generated in-domain pipeline must not be refused or abort (setup, trim, commit, batch_open, batch_check). Around it, out-of-domain requests with magnitudes at the boundary (supported+1, supported+2, max+1, 0): query for an unknown polynomial (batch_open, batch_check, open_combinations), missing evaluation, missing commitment, degree beyond the key, hiding beyond the key / zero (where declared unsupported) / without RNG, bound below the degree / beyond the key (commit and verifier side), zero degree / zero or missing variables at setup, wrong number of variables (Hyrax, Brakedown, multilinear PST: larger and smaller), point of the wrong length, mismatched labels (Hyrax, IPA), IPA `open` with a polynomial whose (valid) degree bound differs from the one recorded on its commitment (other value, present on one side only), a PST13 commitment presented with a degree bound and a degree-bound part (PST13 supports none), KZG10 direct API incl. batch_check with every combination of its four lists differing in length by one honest entry. Oracle: the outcome is Err or panic (for verification calls: not accept); which of the two is reported in observed_counters, not judged." + DIST,
+        "rule": GEN + "Every generated in-domain pipeline must not be refused or abort (setup, trim, commit, batch_open, batch_check). Around it, out-of-domain requests with magnitudes at the boundary (supported+1, supported+2, max+1, 0): query for an unknown polynomial (batch_open, batch_check, open_combinations), missing evaluation, missing commitment, degree beyond the key (dense, with low-order zeros, single top monomial), hiding beyond the key / zero (where declared unsupported) / without RNG, bound below the degree / beyond the key (commit and verifier side), zero degree / zero or missing variables at setup, wrong number of variables (Hyrax, Brakedown, multilinear PST: larger and smaller), point of the wrong length, mismatched labels (Hyrax, IPA), IPA `open` with a polynomial whose (valid) degree bound differs from the one recorded on its commitment (other value, present on one side only), a PST13 commitment presented with a degree bound and a degree-bound part (PST13 supports none), KZG10 direct API incl. batch_check with every combination of its four lists differing in length by one honest entry. Oracle: the outcome is Err or panic (for verification calls: not accept); which of the two is reported in observed_counters, not judged." + DIST,
         "required_classes": ["in-domain-no-abort", "unknown-polynomial", "missing-evaluation", "degree-beyond-key", "hiding-beyond-key", "hiding-without-rng", "bound-beyond-key", "setup-degree-zero", "wrong-num-vars[larger]", "bound-differs-from-commitment", "wrong-num-vars[smaller]", "point-length-mismatch", "mismatched-labels", "list-lengths-differ", "bound-on-scheme-without-bounds"],
         "technique": "runtime monitoring: boundary-magnitude request injection with outcome classification (Ok / Err / panic) via catch_unwind",
         "level_text": "Each refusal boundary of each scheme is probed from both sides on generated configurations; the in-domain side reuses the honest-workload generator so that a refusal introduced for valid inputs is caught as well.",
@@ -192,7 +192,7 @@ PROPS.update({
 PROPS.update({
     "C18": {
         "title": "Schedule and feature independence",
-        "rule": GEN + "Each case fixes a 32-byte seed from which ALL randomness of one complete execution derives (setup, trim, polynomials, commitment blinding, query set, prover and verifier RNG). The execution is repeated inside this process under rayon pools of 1, 2, 3, 16 and three (thorough: six) further sizes drawn per case from 4..24 threads, 3 (quick) / 8 (thorough) more times at 16 threads and, in the thorough tier, under a 64-thread oversubscribed pool while 8 spinning threads load the machine; the driver additionally runs the same cases with the harness built WITHOUT the library's `parallel` feature. Compared: SHA-256 of the canonical serialization of universal parameters, committer / verifier key, every commitment and commitment state, batch proof, single proof, and the decisions of batch_check (true and false claim) and check. Oracle: all digests of all executions equal; cross-build digests equal key by key. Additional `<scheme>/large` cases run the same pipeline on polynomials with 1024..2100 (thorough ..4200) coefficients (boundary sizes 1023, 1024, 1025, 2047, 2048 over-represented), 10 / 12 variables, PST13 with 4 variables of degree 11, under pools of 1, 2, 3, 5, 7, 16 threads, because size thresholds of parallel code paths lie far above the small scenarios. A case is one seed; non-trivial = at least 7 executions compared in the parallel build." + DIST,
+        "rule": GEN + "Each case fixes a 32-byte seed from which ALL randomness of one complete execution derives (setup, trim, polynomials, commitment blinding, query set, prover and verifier RNG). The execution is repeated inside this process under rayon pools of 1, 2, 3, 16 and three (thorough: six) further sizes drawn per case from 4..24 threads, 3 (quick) / 8 (thorough) more times at 16 threads and, in the thorough tier, under a 64-thread oversubscribed pool while 8 spinning threads load the machine; the driver additionally runs the same cases with the harness built WITHOUT the library's `parallel` feature. Compared: SHA-256 of the canonical serialization of universal parameters, committer / verifier key, every commitment and commitment state, batch proof, single proof, and the decisions of batch_check (true and false claim) and check. Oracle: all digests of all executions equal; cross-build digests equal key by key. Additional `<scheme>/large` cases run the same pipeline on polynomials with 1024..2100 (thorough ..4200) coefficients (boundary sizes 1023, 1024, 1025, 2047, 2048 over-represented), 10 / 12 variables, PST13 with 4 variables of degree 11, under pools of 1, 2, 3, 5, 7, 16 threads, because size thresholds of parallel code paths lie far above the small scenarios. One case repeats Sonic `setup` for more than 2^14 powers under one thread and two drawn pool sizes. A case is one seed; non-trivial = at least 3 executions compared in the parallel build." + DIST,
         "required_classes": ["same-digests-across-thread-counts"],
         "technique": "runtime monitoring: differential determinism monitor across rayon pool sizes, repetitions, load, and the non-parallel build",
         "level_text": "Schedule independence is decided by observing many executions of identical seeded workloads under different worker counts and builds and comparing digests of everything the library returns; this is what a race detector cannot say for a data-race-free (forbid(unsafe)) crate whose possible nondeterminism lies in reduction order or hidden thread-local RNGs.",
